@@ -201,42 +201,16 @@ def run(ctx):
     if f:
         c.require_pass(ctx, R3, rt, OWNER + "check_ttl", ("effects",), "first effect requires check_ttl Ok")
         c.require_pass(ctx, R3, rt, UPD + "retrieve_txs", ("effects",), "first effect requires the duplicate look-up (retrieve_txs) Ok")
-        # the duplicate test: a TxReceived entry with this slate id -> Err; effects need the != TxReceived edge or loop exit
-        fl = vf.get_flow(f)
-        dup = []
-        for x in cfg.comparisons(f):
-            if x.op in ("Eq", "Ne"):
-                lo, ro = fl.of_operand(x.l), fl.of_operand(x.r)
-                for a, b_ in ((lo, ro), (ro, lo)):
-                    if vf.has_field(a, c.LW + "types::TxLogEntry", "tx_type") and ("agg", c.LW + "types::TxLogEntryType", "TxReceived") in b_:
-                        dup.append(x)
-        if len(dup) != 1:
-            run.error("C07.R3: duplicate-receive comparison (tx_type == TxReceived) not found (%d)" % len(dup))
-        else:
-            x = dup[0]
-            same = x.true_edges if x.op == "Eq" else x.false_edges
-            eb = set(ctx.eff.effect_blocks(f))
-            # from the 'is TxReceived' edge no effect and no Ok return is reachable
-            starts = [d for (_s, d) in same]
-            par = cfg.reach(f, starts=starts)
-            # the loop continues only on the other edge; from `same` we must hit an error return without effects
-            hit_eff = [b for b in eb if b in par]
-            h = bool(starts) and not hit_eff
-            # stronger: from same-edge, returns are only error returns
-            par2 = cfg.reach(f, starts=starts, cut_nodes=cfg.error_return_blocks(f))
-            h = h and not any(b in par2 for b in cfg.return_blocks(f))
-            run.instance(R3, {"fn": "foreign::receive_tx", "obligation": "an existing TxReceived entry for this slate id leads to Err without any effect"}, held=h)
-            if not h:
-                run.finding(Finding(R3, rt, "duplicate delivery not refused before effects", site=x.site()))
-            # look-up is keyed by the slate id and destination account
-            for b, t in cfg.find_calls(f, UPD + "retrieve_txs"):
-                o = vf.origins(f, t["a"][2])
-                h = vf.has_field(o, c.LW + "slate::Slate", "id")
-                run.instance(R3, {"fn": "foreign::receive_tx", "obligation": "duplicate look-up keyed by Some(slate.id)"}, held=h)
-                if not h:
-                    run.finding(Finding(R3, rt, "duplicate look-up is not keyed by the slate id", site=c.site_of(f, b)))
-                from .shared import duplicate_lookup_complete
-                duplicate_lookup_complete(ctx, R3, f, b, t)
+        # the duplicate test: a TxReceived entry with this slate id -> Err before any effect; look-up keyed by the
+        # slate id and complete (shared with C03.R3; the test may live in a helper whose Ok-edge guards the effects)
+        from .shared import replay_guard
+        h, info = replay_guard(ctx, R3, f, "TxReceived")
+        run.instance(R3, {"fn": "foreign::receive_tx", "obligation": "an existing TxReceived entry for this slate id leads to Err without any effect", "found": info}, held=h)
+        if not h:
+            if not (info["lookups_by_slate_id"] and info["duplicate_tests"]):
+                run.finding(Finding(R3, rt, "duplicate look-up keyed by the slate id / duplicate-receive test not found before the effects", site=f.loc()))
+            else:
+                run.finding(Finding(R3, rt, "duplicate delivery not refused before effects", site=info.get("site", f.loc())))
         c.require_pass(ctx, R3, rt, c.LW + "slate::Slate::remove_other_sigdata", ("okret",), "Ok return passes remove_other_sigdata Ok (only the recipient's participant entry leaves)")
         for fld in ("amount", "fee_fields"):
             asg = vf.field_assignments(f, c.LW + "slate::Slate", fld)
